@@ -94,6 +94,9 @@ class SerializerH(MethodHarness):
 
 
 class ZipperH(MethodHarness):
+    def nonexclusive_ports(self):
+        return {"peek_arg"}       # documented: "A nonexclusive method to read (but not delete) the head of the arg queue"
+
     def make(self):
         from transactron.lib.reqres import ArgumentsToResultsZipper
         w = self.cfg["width"]
